@@ -281,6 +281,7 @@ class Sim:
         self.round = 0
         self.hostile_sent = 0
         self.raw_ids = {}
+        self.raw_value_ids = []
         self.junk_dispatch = 0
         self.hp = None
         self.hconn = None
@@ -771,6 +772,7 @@ class Sim:
                 del d[ch.choice(['id', 'errors', 'meta'], 'v-del')]
             if not hp.clean:
                 self.h_send(DELIMITER)
+            self.raw_value_ids.append(J(d.get('id')))
             ctx.stat('hostile:value')
             ctx.state(('hostile', 'value', mut))
             ctx.log('hostile', 'value', short(d, 120))
@@ -929,10 +931,11 @@ class Sim:
         answered = wire_id is not None and any(is_value(o) and J(o.get('id')) == J(wire_id) for _, _, o, _ in packets_of(back))
         if clause == 'never-arrived' and c.behav == 'raise' and len(c.runs) == 1 and not answered:
             return K_RAISE, 'the handler raised: no result packet is ever sent for a failed event'
-        if clause == 'never-ran' and loc is not None and self.packet_cut(c.conn, snd, *loc) == 'split':
-            return K_SPLIT, 'its call packet (%d bytes) reached the receiving Protocol in more than one read' % (loc[1] - loc[0])
+        # (a cut is harmless once reassembly works, the "value" heuristic is not: it goes first)
         if clause == 'never-ran' and 'valuekey:call' in feats:
             return K_VALUEKEY, 'the call carries a dict key "value", so the packet is taken for a result packet'
+        if clause == 'never-ran' and loc is not None and self.packet_cut(c.conn, snd, *loc) == 'split':
+            return K_SPLIT, 'its call packet (%d bytes) reached the receiving Protocol in more than one read' % (loc[1] - loc[0])
         if wire_id is not None and c.src is not None:
             # more value packets with this id on the call's own connection than calls with this id: the far end answered somebody else's call here
             vals = [o for _, _, o, _ in packets_of(self.tx_stream(c.conn, rcv)) if is_value(o) and J(o.get('id')) == J(wire_id)]
@@ -955,7 +958,10 @@ class Sim:
                 if other is c.conn:
                     continue
                 o_snd = 's' if c.src is not self.procs['A'] else 'c'      # the far end of `other` as seen from c.src
-                theirs = [o for _, _, o, _ in packets_of(self.tx_stream(other, o_snd)) if is_value(o) and J(o.get('id')) == J(wire_id)]
+                if other.raw is not None:      # the raw peer's framing is its own business: go by the value packets it built
+                    theirs = [v for v in self.raw_value_ids if v == J(wire_id)]
+                else:
+                    theirs = [o for _, _, o, _ in packets_of(self.tx_stream(other, o_snd)) if is_value(o) and J(o.get('id')) == J(wire_id)]
                 if theirs:
                     mine = [o for _, _, o, _ in packets_of(self.tx_stream(other, 'c' if o_snd == 's' else 's')) if is_call(o) and J(o.get('id')) == J(wire_id)]
                     if other.raw is None and len(theirs) > len(mine):
@@ -970,6 +976,11 @@ class Sim:
                 if o is not c and o.src is c.src and o.conn is not c.conn and o.blocked != 'send' and self.overlap(c, o):
                     return K_SHARED, 'calls %s and %s of process %s were in flight on two connections; ids restart at 0 per connection but the table is shared' % (
                         c.tok, o.tok, c.src.tag)
+        # last resort: results demonstrably went to connections they do not belong to in this run; what that does to the receiving
+        # Protocols (a foreign id completes a call, an unhashable one takes the rest of the read with it, ...) has many shapes
+        v = self.wire_violation()
+        if v is not None and v[0] == K_BCAST:
+            return K_BCAST, v[1]
         return None, ''
 
     def overlap(self, a, b):
@@ -1028,7 +1039,7 @@ class Sim:
             return self.fail('C19/mixup/duplicate-result', 'raw peer call %s was answered %d times' % (c.tok, len(mine)))
         return None
 
-    def judge_wire(self):
+    def wire_violation(self):
         """"results are not mixed up between connections": every value packet a node writes on a connection answers a call received there."""
         for cn in self.conns:
             for snd in ('c', 's'):
@@ -1048,10 +1059,15 @@ class Sim:
                         if got.get(k, 0) <= 0:
                             who = 'A' if snd == 's' else cn.cproc.tag
                             multi = len([x for x in self.procs[who].conns]) > 1
-                            return self.fail(K_BCAST if multi else 'C19/mixup/unsolicited-result',
-                                             'process %s wrote a result packet with id %s on connection %d, which did not carry an unanswered call with that id' % (who, k, cn.k))
+                            return (K_BCAST if multi else 'C19/mixup/unsolicited-result',
+                                    'process %s wrote a result packet with id %s on connection %d, which did not carry an unanswered call with that id' % (who, k, cn.k))
                         got[k] -= 1
         return None
+
+    def judge_wire(self):
+        v = self.wire_violation()
+        if v is not None:
+            self.fail(*v)
 
     # ------------------------------------------------------------------ the run
     def run(self):
